@@ -50,7 +50,7 @@ const (
 	clsRead     = "read-error"
 	clsMismatch = "integrity"
 	clsErrBuf   = "error-buffer"
-	clsTask     = "task" // followed by the task's node id
+	clsTask     = "task"      // followed by the task's node id
 	clsAny      = "any-error" // model only: the source is bad, which error says so is not stated
 )
 
